@@ -19,6 +19,7 @@ from ..class_diagrams.class_diagram import (
     ClassRelation,
     WrappedClass,
 )
+from ..class_diagrams.failures import ClassIsUnMappedInClassDiagram
 from ..class_diagrams.wrapped_field import WrappedField
 
 logger = logging.getLogger(__name__)
@@ -127,6 +128,23 @@ class ORMatic:
         )
         for edge in self.class_dependency_graph.inheritance_relations:
             self.inheritance_graph.add_edge(edge.source.index, edge.target.index, None)
+        # A class whose direct bases are not part of the diagram inherits its DAO from the nearest ancestor that is: the DAO
+        # of that ancestor has to be defined first as well.
+        for wrapped_clazz in self.class_dependency_graph.wrapped_classes:
+            for ancestor in wrapped_clazz.clazz.__mro__[1:]:
+                try:
+                    wrapped_ancestor = self.class_dependency_graph.get_wrapped_class(
+                        ancestor
+                    )
+                except ClassIsUnMappedInClassDiagram:
+                    continue
+                if not self.inheritance_graph.has_edge(
+                    wrapped_ancestor.index, wrapped_clazz.index
+                ):
+                    self.inheritance_graph.add_edge(
+                        wrapped_ancestor.index, wrapped_clazz.index, None
+                    )
+                break
 
     def _add_alternative_mappings_to_class_diagram(self):
         """
